@@ -560,6 +560,93 @@ func (r *c26run) RunSeq(sched *simrt.Source, keepLog bool) *simrt.Result {
 			fail("harness", fmt.Sprintf("judged run exit %d differs from reference run exit %d", code, refCode), "exit codes differ")
 		}
 	}
+	// --- crash, (edit,) run again --------------------------------------------------
+	// The process really dies at one crash point, leaving behind whatever it had
+	// created; then — as a user would — the command is simply run again, in half
+	// of the cases after one source was edited meanwhile. The second run must
+	// leave every file with the content it had before that run or with its own
+	// formatted content: nothing a dead run left behind may leak into a file.
+	plainFlags := len(r.flags) == 0 || (len(r.flags) == 1 && r.flags[0] == "--smart")
+	if r.failure == nil && plainFlags && refOps > 0 && sched.Chance(600) {
+		os.Chdir(cwd)
+		if err := r.populate(); err != nil {
+			fail("harness", err.Error(), "populate")
+			return res
+		}
+		os.Chdir(r.dir)
+		k := 1 + sched.Draw(refOps)
+		simos.Install(&simos.Hooks{After: func(op *simos.Op) {
+			if op.Seq == k {
+				panic(simos.ExitPanic{Code: 137}) // SIGKILL right after this operation
+			}
+		}})
+		r.invoke()
+		simos.Install(nil)
+		res.Faults["process-killed-then-rerun"]++
+		mix(fmt.Sprintf("kill%d", k))
+		// an edit between the runs: one source takes over the content of another
+		// source of the same kind (whose own formatted form is known)
+		expect := map[string][2]string{} // file -> {content before run 2, its formatted form}
+		for _, f := range r.files {
+			if f.Kind == "bystander" || f.LinkText != "" {
+				continue
+			}
+			st := readState(f.Rel)
+			if !st.exists {
+				continue // (cannot happen on a correct tree: judged above)
+			}
+			fm := st.data
+			if st.data == orig[f.Rel].data && alone[f.Rel].exists {
+				fm = alone[f.Rel].data
+			}
+			expect[f.Rel] = [2]string{st.data, fm}
+		}
+		if sched.Chance(700) {
+			for _, x := range r.files {
+				if x.Kind == "bystander" || x.Link || x.LinkText != "" {
+					continue
+				}
+				done := false
+				for _, y := range r.files {
+					// y must be a source this very invocation rewrites when it meets it in
+					// this directory: then the same content under x's name is rewritten
+					// the same way
+					if y.Rel == x.Rel || y.Kind == "bystander" || y.Link || y.LinkText != "" || filepath.Ext(y.Rel) != filepath.Ext(x.Rel) ||
+						filepath.Dir(y.Rel) != filepath.Dir(x.Rel) || !alone[y.Rel].exists || alone[y.Rel].data == orig[y.Rel].data || strings.Contains(x.Rel, "twin") {
+						continue
+					}
+					if fi, err := os.Lstat(x.Rel); err == nil && fi.Mode().IsRegular() {
+						os.Chmod(x.Rel, 0644)
+						os.WriteFile(x.Rel, []byte(orig[y.Rel].data), 0644)
+						os.Chmod(x.Rel, x.Mode)
+						expect[x.Rel] = [2]string{orig[y.Rel].data, alone[y.Rel].data}
+						res.Faults["source-edited-between-runs"]++
+						mix("edit " + x.Rel + "<-" + y.Rel)
+						done = true
+					}
+					break
+				}
+				if done {
+					break
+				}
+			}
+		}
+		code2, pan2 := r.invoke()
+		if pan2 != nil {
+			fail("panic", fmt.Sprintf("xgo fmt panicked on the run after a crash: %v", pan2), "panic in xgo fmt")
+		}
+		mix(fmt.Sprintf("rerun-exit%d", code2))
+		for _, f := range r.files {
+			e, ok := expect[f.Rel]
+			if !ok || r.failure != nil {
+				continue
+			}
+			st := readState(f.Rel)
+			if !st.exists || (st.data != e[0] && st.data != e[1]) {
+				fail("crash-consistency", fmt.Sprintf("killed after operation %d, then run again (exit %d): %s holds neither the content it had before the second run (%d bytes) nor its own formatted content (%d bytes); found %d bytes", k, code2, f.Rel, len(e[0]), len(e[1]), len(st.data)), "file damaged by the run after a crash")
+			}
+		}
+	}
 	res.SchedHash = hash
 	res.Switches = crashPoints
 	return res
